@@ -29,7 +29,10 @@ type clientFactory struct {
 }
 
 func (s *clientFactory) NewHostClient() (client client.HostClient, err error) {
-	return http1.NewHostClient(s.option), nil
+	// every host client gets options of its own: what is changed on one (SetMaxConns, the
+	// host-client config hook) is not changed for the other hosts of the client
+	opt := *s.option
+	return http1.NewHostClient(&opt), nil
 }
 
 func NewClientFactory(option *http1.ClientOptions) suite.ClientFactory {
